@@ -23,10 +23,25 @@ import (
 )
 
 const (
-	repoDir  = "/repo"
 	verifDir = "/verif"
 	modPath  = "github.com/paulmach/osm"
 )
+
+// repoDir is /repo; SYMGO_REPO points the checks at a scratch worktree when they are
+// run against seeded mutations (never used by the registered commands).
+var repoDir = func() string {
+	if d := os.Getenv("SYMGO_REPO"); d != "" {
+		return d
+	}
+	return "/repo"
+}()
+
+var replayRoot = func() string {
+	if d := os.Getenv("SYMGO_REPLAYS"); d != "" {
+		return d
+	}
+	return filepath.Join(verifDir, "replays")
+}()
 
 type HarnessEntry struct {
 	Name     string      `json:"name"`
@@ -335,7 +350,7 @@ func cmdCheck(args []string) int {
 			if seenFp[fp] {
 				continue
 			}
-			dir := filepath.Join(verifDir, "replays", *prop, fmt.Sprintf("%s-%d", h.Name, i))
+			dir := filepath.Join(replayRoot, *prop, fmt.Sprintf("%s-%d", h.Name, i))
 			confirmed, out := true, "replay skipped"
 			if !*noReplay {
 				confirmed, out = replayNative(dir, h, cex, files, c.Params)
@@ -480,7 +495,7 @@ func replayNative(dir string, h HarnessEntry, cex *Counterexample, files map[str
 	for k, v := range params {
 		penv += fmt.Sprintf("VERIF_PARAM_%s=%d ", k, v)
 	}
-	script := fmt.Sprintf("#!/bin/sh\n# replays the counterexample against the real build of /repo\ncd /repo && "+penv+"GOFLAGS=-mod=mod GOPROXY=off GOSUMDB=off GOTOOLCHAIN=local VERIF_VALUES=%s timeout 300 go test -tags verif -vet=off %s-overlay %s -run '^TestVerifReplay$' -v %s\n",
+	script := fmt.Sprintf("#!/bin/sh\n# replays the counterexample against the real build of /repo\ncd "+repoDir+" && "+penv+"GOFLAGS=-mod=mod GOPROXY=off GOSUMDB=off GOTOOLCHAIN=local VERIF_VALUES=%s timeout 300 go test -tags verif -vet=off %s-overlay %s -run '^TestVerifReplay$' -v %s\n",
 		filepath.Join(dir, "values.json"), extra, ovFile, pkgArg)
 	os.WriteFile(filepath.Join(dir, "run.sh"), []byte(script), 0755)
 	cmd := exec.Command("/bin/sh", filepath.Join(dir, "run.sh"))
@@ -589,7 +604,11 @@ func writeEvidence(pc *PropConfig, tier string, seed int, reports []*HarnessRepo
 		"wall_s":      wall,
 		"violations":  len(viols),
 	}
-	os.MkdirAll(filepath.Join(verifDir, "evidence"), 0755)
+	evDir := filepath.Join(verifDir, "evidence")
+	if d := os.Getenv("SYMGO_EVIDENCE"); d != "" {
+		evDir = d
+	}
+	os.MkdirAll(evDir, 0755)
 	b, _ := json.MarshalIndent(ev, "", " ")
-	os.WriteFile(filepath.Join(verifDir, "evidence", pc.Property+".json"), b, 0644)
+	os.WriteFile(filepath.Join(evDir, pc.Property+".json"), b, 0644)
 }
